@@ -1,6 +1,30 @@
+// Package c06: native ONT / ONG token contracts — supply conservation and authorization.
+//
+// The driver runs generated call histories against the real contracts through
+// native.NativeService.NativeCall on a CacheDB over an in-memory store (one call = one
+// transaction: fresh cache, committed only if the call returned no error), and a smaller number
+// through a ledgerkit solo chain with signed transactions in blocks (ledger.go).
+//
+//   - correspondence: every history is one Coq case: network id, the stored start state and, per
+//     call, the call, the implementation's outcome (return value or error class) and the decoded
+//     storage of both contracts afterwards (decoded here from the raw records).  Corr/C06.v
+//     replays Model/Token.v on it, with CalcUnbindOng instantiated by the C09 model.
+//   - oracle (direct, on the implementation): per call, sum of balances of each token unchanged,
+//     nothing negative, every decreased balance justified by a witness / the ONT contract's pool /
+//     an equal decrease of the spender's allowance, every increased allowance witnessed, a failed
+//     call leaves every stored byte of both contracts unchanged; balanceOf(V2)/allowance(V2)
+//     answered by the contracts agree with the decoded records.
 package c06
 
 import (
+	"encoding/json"
+	"fmt"
+	"math/big"
+	"strings"
+
+	"github.com/ontio/ontology/common"
+	"github.com/ontio/ontology/common/config"
+
 	_ "verif/harness/drivers/c09" // Gen/Unbind.v producer (Corr/C06.v instantiates CalcUnbindOng with Model/Unbind.v)
 
 	"verif/harness/hx"
@@ -8,6 +32,345 @@ import (
 
 func init() { hx.Register("C06", Run) }
 
+// ---------------------------------------------------------------- Coq printers
+
+func coqAddr(a common.Address) string { return addrN(a).String() }
+func coqAddrH(h string) string        { return coqAddr(addrOf(h)) }
+func coqZ(v *big.Int) string          { return hx.CoqZBig(v) }
+
+func coqState(d *dump) string {
+	bal := func(l []balEnt) string {
+		var s []string
+		for _, e := range l {
+			s = append(s, fmt.Sprintf("(%s, %s)", coqAddr(e.A), coqZ(e.V)))
+		}
+		return hx.CoqList(s)
+	}
+	al := func(l []allowEnt) string {
+		var s []string
+		for _, e := range l {
+			s = append(s, fmt.Sprintf("((%s, %s), %s)", coqAddr(e.O), coqAddr(e.S), coqZ(e.V)))
+		}
+		return hx.CoqList(s)
+	}
+	return fmt.Sprintf("(mkState %s %s %s %s %s)", bal(d.Bal["ONT"]), bal(d.Bal["ONG"]), al(d.Allow["ONT"]), al(d.Allow["ONG"]), bal(d.Offs))
+}
+
+func v2onAt(net, height uint32) (on bool, wrap bool) {
+	withNet(net, func() {
+		on = height >= config.GetAddDecimalsHeight()
+		wrap = height <= config.GetUint64WrappingHeight()
+	})
+	return
+}
+
+func coqCall(net uint32, k *jCall) string {
+	var sg []string
+	for _, s := range k.Signers {
+		sg = append(sg, coqAddrH(s))
+	}
+	caller := "None"
+	if k.Caller != "" {
+		caller = "(Some " + coqAddrH(k.Caller) + ")"
+	}
+	on, wrap := v2onAt(net, k.Height)
+	ctx := fmt.Sprintf("(mkCtx %s %s %s %s %s %s)", hx.CoqList(sg), caller, hx.CoqZ(int64(k.Time)), hx.CoqBool(k.PreExec), hx.CoqBool(on), hx.CoqBool(wrap))
+	var op string
+	switch k.Kind {
+	case "transfer":
+		var ts []string
+		for _, s := range k.States {
+			ts = append(ts, fmt.Sprintf("TS %s %s %s", coqAddrH(s.From), coqAddrH(s.To), coqZ(bigOf(s.Value))))
+		}
+		op = fmt.Sprintf("(Transfer %s %s)", hx.CoqBool(k.V2), hx.CoqList(ts))
+	case "approve":
+		op = fmt.Sprintf("(Approve %s %s %s %s)", hx.CoqBool(k.V2), coqAddrH(k.From), coqAddrH(k.To), coqZ(bigOf(k.Value)))
+	default:
+		op = fmt.Sprintf("(TransferFrom %s %s %s %s %s)", hx.CoqBool(k.V2), coqAddrH(k.Sender), coqAddrH(k.From), coqAddrH(k.To), coqZ(bigOf(k.Value)))
+	}
+	return fmt.Sprintf("(mkCall %s %s %s)", k.Tok, ctx, op)
+}
+
+// ---------------------------------------------------------------- oracle
+
+func witnessed(k *jCall, a common.Address) bool {
+	for _, s := range k.Signers {
+		if addrOf(s) == a {
+			return true
+		}
+	}
+	return k.Caller != "" && addrOf(k.Caller) == a
+}
+
+type stepInfo struct {
+	Index   int    `json:"index"`
+	Call    *jCall `json:"call"`
+	Outcome string `json:"outcome"`
+}
+
+// checkStep is the property stated directly on two decoded storage dumps of the implementation.
+func checkStep(c *hx.Ctx, seq *jSeq, i int, k *jCall, failed bool, before, after *dump, rawSame bool, outcome string) {
+	in := map[string]interface{}{"mode": seq.Mode, "net": seq.Net, "init": seq.Init, "calls": seq.Calls[:i+1]}
+	got := func(extra interface{}) interface{} {
+		return map[string]interface{}{"step": stepInfo{i, k, outcome}, "detail": extra}
+	}
+	if failed {
+		if !rawSame {
+			c.Fail("failed-call-changed-state", "a failed call must leave every balance and allowance untouched", in, got(nil), "stored records identical before and after")
+		}
+		return
+	}
+	for _, tok := range []string{"ONT", "ONG"} {
+		if before.sum(tok).Cmp(after.sum(tok)) != 0 {
+			c.Fail("supply-changed:"+tok, "sum of all balances of the token unchanged", in,
+				got(map[string]string{"before": before.sum(tok).String(), "after": after.sum(tok).String()}), "equal sums")
+		}
+		for _, e := range after.Bal[tok] {
+			if e.V.Sign() < 0 {
+				c.Fail("negative-balance", "no balance becomes negative", in, got(hexOf(e.A)), ">= 0")
+			}
+		}
+		for _, e := range after.Allow[tok] {
+			if e.V.Sign() < 0 {
+				c.Fail("negative-allowance", "no allowance becomes negative", in, got(hexOf(e.O)+"->"+hexOf(e.S)), ">= 0")
+			}
+		}
+		// debits
+		for _, e := range before.Bal[tok] {
+			nb := after.bal(tok, e.A)
+			if nb.Cmp(e.V) >= 0 {
+				continue
+			}
+			dec := new(big.Int).Sub(e.V, nb)
+			if witnessed(k, e.A) {
+				continue
+			}
+			if k.Tok == "ONT" && tok == "ONG" && e.A == ontC {
+				continue // the ONT contract pays accrued ONG out of its own balance
+			}
+			if k.Kind == "transferFrom" && tok == k.Tok && addrOf(k.From) == e.A {
+				sender := addrOf(k.Sender)
+				ab, aa := before.allow(tok, e.A, sender), after.allow(tok, e.A, sender)
+				spenderOK := witnessed(k, sender) || (witnessed(k, ontC) && k.Sender == k.To && e.A == ontC)
+				if spenderOK && aa.Sign() >= 0 && new(big.Int).Sub(ab, aa).Cmp(dec) == 0 {
+					continue
+				}
+			}
+			c.Fail("unauthorized-debit", "a debit needs the owner's witness or an equal decrease of an allowance it granted", in,
+				got(map[string]string{"token": tok, "account": hexOf(e.A), "decrease": dec.String()}), "witness or allowance")
+		}
+		// allowance increases
+		for _, e := range after.Allow[tok] {
+			if e.V.Cmp(before.allow(tok, e.O, e.S)) <= 0 {
+				continue
+			}
+			if witnessed(k, e.O) || (k.Tok == "ONT" && tok == "ONG" && e.O == ontC) {
+				continue
+			}
+			c.Fail("unauthorized-approve", "an allowance may rise only under its owner's witness", in,
+				got(map[string]string{"token": tok, "owner": hexOf(e.O), "spender": hexOf(e.S)}), "owner witnessed")
+		}
+	}
+	// ONT calls never debit anybody's ONG but the pool
+	if k.Tok == "ONT" {
+		for _, e := range before.Bal["ONG"] {
+			if e.A != ontC && after.bal("ONG", e.A).Cmp(e.V) < 0 {
+				c.Fail("ont-call-debited-ong", "an ONT call moves ONG only out of the ONT contract's balance", in, got(hexOf(e.A)), "unchanged or increased")
+			}
+		}
+	}
+}
+
+// checkQueries: what the contracts answer for balanceOf(V2) / allowance(V2) is the decoded record.
+func (w *world) checkQueries(seq *jSeq, i int, k *jCall, d *dump, accts []common.Address) {
+	in := map[string]interface{}{"mode": seq.Mode, "net": seq.Net, "init": seq.Init, "calls": seq.Calls[:i+1]}
+	bad := func(what string, got, want *big.Int) {
+		w.c.Fail("query-disagrees", "balanceOf/allowance answers differ from the stored records", in,
+			map[string]string{"query": what, "got": fmt.Sprint(got)}, want.String())
+	}
+	for _, tok := range []string{"ONT", "ONG"} {
+		a := accts[w.c.Intn(len(accts))]
+		b := accts[w.c.Intn(len(accts))]
+		want := d.bal(tok, a)
+		if got, err := w.query(tok, "balanceOfV2", k.Height, a); err != nil || got.Cmp(want) != 0 {
+			bad(tok+".balanceOfV2 "+hexOf(a), got, want)
+		}
+		if got, err := w.query(tok, "balanceOf", k.Height, a); err != nil || got.Cmp(new(big.Int).Div(want, scale)) != 0 {
+			bad(tok+".balanceOf "+hexOf(a), got, new(big.Int).Div(want, scale))
+		}
+		want = d.allow(tok, a, b)
+		if got, err := w.query(tok, "allowanceV2", k.Height, a, b); err != nil || got.Cmp(want) != 0 {
+			bad(tok+".allowanceV2 "+hexOf(a)+" "+hexOf(b), got, want)
+		}
+	}
+}
+
+// ---------------------------------------------------------------- one history
+
+func sameRaw(a, b map[string]string) bool {
+	if len(a) != len(b) {
+		return false
+	}
+	for k, v := range a {
+		if w, ok := b[k]; !ok || w != v {
+			return false
+		}
+	}
+	return true
+}
+
+func outcomeTerm(ret []byte, err error, panicked bool) (term, class string) {
+	if err != nil {
+		cl := classify(err, panicked)
+		return "(RErr " + cl + ")", cl
+	}
+	if len(ret) == 1 && ret[0] == 1 {
+		return "(ROk true)", "true"
+	}
+	return "(ROk false)", "false"
+}
+
+// runDirect executes a history on a fresh in-memory store. If g != nil the calls are generated
+// on the fly (each from the current implementation state) and appended to seq.
+func runDirect(c *hx.Ctx, seq *jSeq, g *sgen, nCalls int) {
+	withNet(seq.Net, func() {
+		w := newWorld(c)
+		if g != nil {
+			seq.Init = g.initState()
+		}
+		w.load(&seq.Init)
+		d0, err := w.dump()
+		if err != nil {
+			c.Fail("store-undecodable", "stored records decode", seq, err.Error(), nil)
+			return
+		}
+		var accts []common.Address
+		seen := map[common.Address]bool{}
+		addA := func(a common.Address) {
+			if !seen[a] {
+				seen[a] = true
+				accts = append(accts, a)
+			}
+		}
+		addA(ontC)
+		addA(govC)
+		for _, e := range d0.Bal["ONT"] {
+			addA(e.A)
+		}
+		if g != nil {
+			for _, a := range g.accts {
+				addA(a)
+			}
+		}
+		now := genesis + uint32(1000)
+		if g != nil {
+			now = genesis + g.offsetNear(config.GetOntHolderUnboundDeadline())
+			nCalls = 6 + c.Intn(10)
+		} else {
+			nCalls = len(seq.Calls)
+		}
+		v2on := true
+		if g != nil && seq.Net == config.NETWORK_ID_MAIN_NET && c.Intn(3) == 0 {
+			v2on = false
+		}
+		var steps []string
+		before := d0
+		okCalls, moved := 0, false
+		for i := 0; i < nCalls; i++ {
+			if g != nil {
+				seq.Calls = append(seq.Calls, g.next(before, &now, v2on))
+			}
+			k := &seq.Calls[i]
+			rawBefore := w.raw()
+			method, args := encodeArgs(k)
+			ret, err, panicked := w.invoke(k, method, args, k.PreExec, true)
+			after, derr := w.dump()
+			if derr != nil {
+				c.Fail("store-undecodable", "stored records decode", seq, derr.Error(), nil)
+				return
+			}
+			term, class := outcomeTerm(ret, err, panicked)
+			c.Count(fmt.Sprintf("op:%s.%s", k.Tok, method))
+			c.Count("outcome:" + class)
+			if class == "EOther" || class == "EOtherPanic" {
+				c.Fail("unexpected-error:"+class, "every failure is one of the modelled error classes", seq, err.Error(), nil)
+			}
+			checkStep(c, seq, i, k, err != nil, before, after, sameRaw(rawBefore, w.raw()), class)
+			if i%3 == 0 {
+				w.checkQueries(seq, i, k, after, accts)
+			}
+			if err == nil {
+				okCalls++
+				if !sameRaw(rawBefore, w.raw()) {
+					moved = true
+				}
+				if after.bal("ONG", ontC).Cmp(before.bal("ONG", ontC)) < 0 && k.Tok == "ONT" {
+					c.Count("ong-paid-from-pool")
+				}
+				if k.Tok == "ONT" && len(after.Allow["ONG"]) > 0 && k.Kind != "approve" {
+					for _, e := range after.Allow["ONG"] {
+						if e.O == ontC && e.V.Cmp(before.allow("ONG", ontC, e.S)) > 0 {
+							c.Count("ong-approved-by-ont")
+							break
+						}
+					}
+				}
+			}
+			steps = append(steps, fmt.Sprintf("(%s, %s, %s)", coqCall(seq.Net, k), term, coqState(after)))
+			before = after
+		}
+		c.Count(fmt.Sprintf("net:%d", seq.Net))
+		if okCalls >= 2 && moved {
+			b, _ := json.Marshal(seq)
+			c.Nontrivial(string(b))
+		}
+		c.Sample(map[string]interface{}{"net": seq.Net, "calls": len(seq.Calls), "first_call": seq.Calls[0], "ok_calls": okCalls})
+		c.Case(fmt.Sprintf("CSeq %d %s %s", seq.Net, coqState(d0), "["+strings.Join(steps, ";\n   ")+"]"), seq)
+	})
+}
+
+func newGen(c *hx.Ctx, net uint32) *sgen {
+	g := &sgen{c: c, net: net, users: 3}
+	for i := 0; i < g.users; i++ {
+		var a common.Address
+		copy(a[:], c.Bytes(20))
+		g.accts = append(g.accts, a)
+	}
+	g.accts = append(g.accts, govC, ontC)
+	return g
+}
+
 func Run(c *hx.Ctx) {
 	c.CoqModule("Corr.C06")
+	var in jSeq
+	if c.ReplayInput(&in) {
+		replay(c, &in)
+		return
+	}
+	for _, raw := range c.CorpusInputs() {
+		var s jSeq
+		if json.Unmarshal(raw, &s) == nil && len(s.Calls) > 0 {
+			replay(c, &s)
+		}
+	}
+	probes(c)
+	n := c.N(260, 2600)
+	nets := []uint32{config.NETWORK_ID_POLARIS_NET, config.NETWORK_ID_MAIN_NET, config.NETWORK_ID_POLARIS_NET, config.NETWORK_ID_SOLO_NET}
+	for i := 0; i < n; i++ {
+		net := nets[i%len(nets)]
+		var g *sgen
+		withNet(net, func() { g = newGen(c, net) })
+		seq := &jSeq{Mode: "direct", Net: net}
+		runDirect(c, seq, g, 0)
+	}
+	runLedger(c, c.N(3, 12))
+}
+
+func replay(c *hx.Ctx, s *jSeq) {
+	if s.Mode == "ledger" {
+		c.Note("ledger-mode replay inputs are re-run in direct mode (same calls, same start state)")
+	}
+	cp := *s
+	cp.Mode = "direct"
+	runDirect(c, &cp, nil, 0)
 }
